@@ -37,6 +37,7 @@ I_UF = z3.Function("synapse_interp", R, R, R, R, R)
 
 for _k in ("LinearDense", "LinearDirect", "LinearLateral"):
     c05.make(P, _k)
+c05.make_conv(P)
 
 
 @contract(P, "_synparam_at[select by contract]", [(SM, "_synparam_at")], min_obligations=6)
